@@ -104,6 +104,52 @@ func main() {
 			r.Report(ev.Violation{Sig: "family|clear-reuse", Msg: msg, Replay: map[string]any{"family": "clear-reuse", "n": n}})
 		}
 	}
+	// an answer remembered across exactly 2^k changes (every observer, both flip directions)
+	for _, present := range []bool{false, true} {
+		cases, msg := enum.Wrap(enum.WrapLadder, func() (func() string, func(int), func()) {
+			t := avlh.NewTree()
+			want := []int{10, 20, 30}
+			for _, v := range want {
+				t.Add(v)
+			}
+			has7, odd := false, false
+			flip := func() {
+				if has7 {
+					t.Remove(7)
+				} else {
+					t.Add(7)
+				}
+				has7 = !has7
+			}
+			if present {
+				flip()
+			}
+			return func() string {
+					w := append([]int{}, want...)
+					if has7 {
+						w = append([]int{7}, w...)
+					}
+					if odd {
+						w = append(w, 1000)
+					}
+					if got := t.Contains(7); got != has7 {
+						return fmt.Sprintf("Contains(7) = %v, want %v", got, has7)
+					}
+					return avlh.CheckTree(&t, w, false)
+				}, func(int) {
+					if odd {
+						t.Remove(1000)
+					} else {
+						t.Add(1000)
+					}
+					odd = !odd
+				}, flip
+		})
+		if msg != "" {
+			r.Report(ev.Violation{Sig: "family|wrap", Msg: msg, Replay: map[string]any{"family": "wrap", "present_first": present}})
+		}
+		r.Set("wrap_family_cases", cases)
+	}
 	if cases, msg := avlh.PanickingComparator(); msg != "" {
 		r.Report(ev.Violation{Sig: "family|panicking-comparator", Msg: msg, Replay: map[string]any{"family": "panicking-comparator"}})
 	} else {
